@@ -165,6 +165,20 @@ CLAIMED["C13"] = dict(
     technique="term extraction from MIR + canonical polynomial normal forms (no solver)",
 )
 
+CLAIMED["C05"] = dict(
+    category="other",
+    text=("Structural clauses from terms and tables extracted from MIR: R5.1 zero area for 0/1-dimensional types, sum-folds for MultiPolygon / "
+          "GeometryCollection (unsigned: of absolute values), unsigned = |signed| for Polygon and Triangle; R5.2 Polygon::signed_area = "
+          "sign(A_ext)·(|A_ext| − Σ|A_hole|) with the sign decided by A_ext < 0 alone and get_linestring_area = twice/2; R5.3 "
+          "twice_signed_ring_area guards (short/unclosed -> 0) and the per-segment step determinant(segment − shift) with a loop-invariant "
+          "ring coordinate as shift, Line::determinant = x1·y2 − y1·x2 (polynomial identity); R5.4 Rect = width·height, Triangle = Σdet/2; "
+          "R5.5 winding_order table (CCW/CW/Collinear -> CounterClockwise/Clockwise/None at least_index, by the scalar's own kernel). "
+          "Not decided: rounding bounds, conditioning quality, the least-vertex theorem."),
+    design_ref="DESIGN.md §4 C05",
+    note="Trusted: iterator fold semantics; polynomial normaliser. Numeric accuracy is not claimed.",
+    technique="term extraction from MIR (folds, polynomial identities) + decision table of winding_order",
+)
+
 NOT_YET = "rule set not implemented in this revision of /verif (see DESIGN.md §7 build order); nothing is claimed"
 NA = {}
 
